@@ -65,7 +65,6 @@ static void w_setup(int cfg, int thorough)
     for (l = 0; l < NL; l++) { w_ops[w_nops++] = OP(O_REV, l, 0, 0); w_ops[w_nops++] = OP(O_SORT, l, 0, 0); w_ops[w_nops++] = OP(O_CLEAR, l, 0, 0); }
     for (l = 0; l < NL; l++) for (j = 0; j < NL; j++) if (l != j) w_ops[w_nops++] = OP(O_CONCAT, l, j, 0);
     for (l = 0; l < NL; l++) for (j = l; j < NL; j++) w_ops[w_nops++] = OP(O_SWAP, l, j, 0);
-    for (l = 0; l < NL; l++) for (j = 0; j < NL; j++) if (l != j) w_ops[w_nops++] = OP(O_FOREACH_MOVE, l, j, 0);
 }
 static const char *w_config_desc(void) { return cfgdesc; }
 
@@ -121,6 +120,9 @@ static int cb_collect(void *e, void *p)
     return 0;
 }
 /* the partition idiom: the visit function takes the element it is handed off the front of the list being walked and appends it to another list */
+/* NOT in the alphabet any more: C13 (unlike C12 for the doubly-linked list) says nothing about a visit function that unlinks the visited
+ * element, and the header is silent too; the unchanged library tolerates it, a rewrite that reads the successor after the visit would not.
+ * Kept for experiments (seed C13-3a is therefore not reported). */
 static int mv_from, mv_to, mv_bad;
 static int cb_move(void *e, void *p)
 {
